@@ -61,8 +61,8 @@ META = {
         "is table-consistent, the guard stage faults iff the modelled guard raises and no other stage faults, the run ends "
         "(Finished, Complete). That no OTHER stage (parsing, repair, debump, hydrogen optimisation, pKa, parameter lookup) "
         "raises on a well-formed structure is NOT a theorem: it is exploration over builder structures x force fields "
-        "(untitrated, and titrated through a stubbed run_propka: every titratable type x position x state x force field; evidence keys `success_runs_explored`, `forcefield_defines_class_explored`). Tree state: C12-F1/F2/F4/F5 fixed "
-        "in /repo (9484706, 8895359, 7917ee7, 79b0276); one success-side defect stays known: C12-F3 (one-nucleotide chain)."
+        "(untitrated; titrated through a stubbed run_propka: every titratable type x position x state x force field; and the layouts real structures have: waters / ion / ligand after and before the polymer in the same chain, other chain, TER or not, complexes; evidence keys `success_runs_explored`, `forcefield_defines_class_explored`). Tree state: C12-F1/F2/F4/F5 fixed "
+        "in /repo (9484706, 8895359, 7917ee7, 79b0276); two success-side defects stay known: C12-F3 (one-nucleotide chain) and C12-F6 (waters listed before a nucleic strand in its chain: no 5' terminus)."
     ),
     "level_note": (
         "Trusted: Coq kernel+vm_compute; the ast translator gen/stages.py (cross-checked by the executed-line "
@@ -697,17 +697,17 @@ LIG_SAFE = ["CX1", "CX2", "OX1", "HX1", "HX2", "HX3", "HX4", "HX5", "HX6"]
 LIG_CLASH = ["C1", "C2", "O1", "H1", "H2", "H3", "H4", "H5", "H6"]
 
 
-def ligand_hetatm(names, serial=900):
+def ligand_hetatm(names, serial=900, chain="L", origin=(30.0, 30.0, 30.0)):
     out = []
-    for i, (nm, (x, y, z)) in enumerate(zip(names, ligand_xyz())):
+    for i, (nm, (x, y, z)) in enumerate(zip(names, ligand_xyz(origin))):
         el = nm[0]
-        out.append(f"HETATM{serial + i:5d} {nm:<4s} LIG L 400    {x:8.3f}{y:8.3f}{z:8.3f}  1.00  0.00          {el:>2s}  ")
+        out.append(f"HETATM{serial + i:5d} {nm:<4s} LIG {chain} 400    {x:8.3f}{y:8.3f}{z:8.3f}  1.00  0.00          {el:>2s}  ")
     return out
 
 
-def with_ligand(pdb_text, names):
+def with_ligand(pdb_text, names, chain="L"):
     lines = [l for l in pdb_text.splitlines() if not l.startswith("END")]
-    return "\n".join(lines + ligand_hetatm(names) + ["END"]) + "\n"
+    return "\n".join(lines + ligand_hetatm(names, chain=chain) + ["END"]) + "\n"
 
 
 def structures():
@@ -1211,6 +1211,61 @@ def lost_heavy_atoms(pdb_text, rows):
     return lost
 
 
+def layout_structures(ctx):
+    """The layouts real structures have, for every polymer type: peptide, DNA and RNA strands (2..4
+    residues; one-nucleotide chains are the known C12-F3) with waters / an ion / a ligand listed AFTER
+    (and BEFORE) the polymer under the SAME chain ID, under another ID, with and without TER, several
+    chains, peptide + nucleic complexes.  Each must finish and write a complete PQR with every
+    standard residue present, for each force field that defines its residue classes."""
+    from harness import builder as B
+
+    S = []
+    polymers = [
+        ("peptide", "protein", lambda ch, org: B.build_peptide(["SER", "LYS", "GLY", "ASP"], chain=ch, origin=org)),
+        ("dna", "dna", lambda ch, org: B.build_strand(["G", "A", "T", "C"], chain=ch, origin=org)),
+        ("rna", "rna", lambda ch, org: B.build_strand(["A", "U", "G"], rna=True, chain=ch, origin=org)),
+        ("dna-2mer", "dna", lambda ch, org: B.build_strand(["C", "G"], chain=ch, origin=org)),
+    ]
+
+    def add(tag, polymer, layout, pdb, classes, n_res, opts=(), extra_files=None):
+        S.append({"tag": tag, "pdb": pdb, "classes": sorted(classes), "cells": [(polymer, layout)], "opts": list(opts), "n_res": n_res, "n_heavy": 0,
+                  "polymer": polymer, "layout": layout, "extra_files": extra_files or {}})
+
+    def nres(atoms):
+        return len(B.residues_of(atoms))
+
+    for pname, cls, build in polymers:
+        pol = build("A", (0.0, 0.0, 0.0))
+        wa = B.waters(3, around=pol, chain="A", start=501)      # same chain ID as the polymer
+        wo = B.waters(3, around=pol, chain="W", start=1)        # another chain ID
+        add(f"layout-{pname}-waters-after-same-chain", pname, "waters-after-same-chain-TER", B.to_pdb(pol + wa), {cls, "water"}, nres(pol + wa))
+        add(f"layout-{pname}-waters-after-same-chain-noTER", pname, "waters-after-same-chain-noTER", B.to_pdb(pol + wa, ter=False), {cls, "water"}, nres(pol + wa))
+        add(f"layout-{pname}-waters-before-same-chain", pname, "waters-before-same-chain", B.to_pdb(wa + pol), {cls, "water"}, nres(pol + wa))
+        add(f"layout-{pname}-waters-other-chain", pname, "waters-other-chain", B.to_pdb(pol + wo), {cls, "water"}, nres(pol + wo))
+        add(f"layout-{pname}-one-water-after-same-chain", pname, "one-water-after-same-chain", B.to_pdb(pol + wa[:1]), {cls, "water"}, nres(pol) + 1)
+        # an ion (no parameters in any force field: dropped with a warning, not counted) after the polymer, same chain
+        ion = "HETATM  990 ZN    ZN A 601      25.000  25.000  25.000  1.00  0.00          ZN  "
+        txt = B.to_pdb(pol + wa).replace("END", ion + "\nEND", 1)
+        add(f"layout-{pname}-waters+ion-after-same-chain", pname, "waters+ion-after-same-chain", txt, {cls, "water"}, nres(pol + wa))
+        # a ligand (MOL2 via --ligand) after the polymer, same chain ID
+        lig_pdb = with_ligand(B.to_pdb(pol + wa[:1]), LIG_SAFE, chain="A")
+        add(f"layout-{pname}-ligand+water-after-same-chain", pname, "ligand+water-after-same-chain", lig_pdb, {cls, "water"}, nres(pol) + 2,
+            opts=["--ligand={wd}/lig.mol2"], extra_files={"lig.mol2": mol2_ethanol(LIG_SAFE)})
+    # several chains and complexes
+    pep = B.build_peptide(["ARG", "GLU", "TRP"], chain="A")
+    dna = B.build_strand(["A", "C", "G"], chain="B", origin=(50.0, 0.0, 0.0))
+    rna = B.build_strand(["G", "C", "A", "U"], rna=True, chain="C", origin=(0.0, 50.0, 0.0))
+    wb = B.waters(2, around=pep + dna, chain="B", start=701)
+    wc = B.waters(2, around=pep + dna + rna + wb, chain="C", start=801)
+    add("layout-complex-peptide+dna-waters-in-dna-chain", "peptide+dna", "complex-waters-in-nucleic-chain", B.to_pdb(pep + dna + wb), {"protein", "dna", "water"}, nres(pep + dna + wb))
+    add("layout-complex-peptide+dna+rna-waters-in-each-nucleic-chain", "peptide+dna+rna", "complex-waters-in-nucleic-chains", B.to_pdb(pep + dna + wb + rna + wc),
+        {"protein", "dna", "rna", "water"}, nres(pep + dna + wb + rna + wc))
+    two = B.build_strand(["G", "G", "C"], chain="A") + B.build_strand(["G", "C", "C"], chain="B", start=11, origin=(0.0, 40.0, 0.0))
+    w2 = B.waters(2, around=two, chain="B", start=901)
+    add("layout-two-dna-strands-waters-in-second-chain", "dna", "two-strands-waters-in-second-chain", B.to_pdb(two + w2), {"dna", "water"}, nres(two + w2))
+    return S
+
+
 def residue_position(res):
     pos = []
     for attr, nm in (("is_n_term", "nterm"), ("is_c_term", "cterm"), ("is5term", "5term"), ("is3term", "3term")):
@@ -1255,6 +1310,10 @@ def run_success(ctx, runner, smap, st, ff, cov):
     if st.get("propka_rows") is not None:
         case["propka_rows"] = st["propka_rows"]
         case["titrated"] = True
+    if st.get("extra_files"):
+        case["files"].update(st["extra_files"])
+    if st.get("layout"):
+        case["polymer"], case["layout"] = st["polymer"], st["layout"]
     pmain = runner.pmain
     got = {}
     orig = pmain.main_driver
@@ -1274,7 +1333,15 @@ def run_success(ctx, runner, smap, st, ff, cov):
         obs["missed"] = got["r"][0]
     bad = []
     base = {"side": "success", "ff": ff}
-    if obs["exc"]:
+    if st.get("layout"):
+        base.update({"polymer": st["polymer"], "layout": st["layout"]})
+    if obs["exc"] and st.get("layout"):
+        how = "non-integral-abort" if "deviates" in (obs.get("cause_msg") or "") else f"abort-{obs['cause']}"
+        bad.append(({**base, "condition": "well-formed-input-rejected", "how": how},
+                    f"{st['tag']} --ff={ff}: complete standard residues in a usual layout ({st['layout']}) rejected: {obs['cause']}: {obs.get('cause_msg', '')[:100]}"))
+        if obs["state"] not in ("absent",):
+            bad.append(({**base, "condition": "output-created-by-failing-run", "left": obs["state"]}, "failing run left an output file"))
+    elif obs["exc"]:
         culprits = diagnose_success_failure(obs) or ["none"]
         cond = "non-integral-abort" if "deviates" in (obs.get("cause_msg") or "") else f"abort-{obs['cause']}"
         for c in culprits:
@@ -1821,7 +1888,7 @@ def run(ctx):
     # ---- success side (exploration)
     cov, detail = ff_coverage()
     ctx.cov["forcefield_defines_class_explored"] = {f"{ff}:{c}": v for (ff, c), v in sorted(cov.items())}
-    sts = success_structures(ctx) + titrated_structures(ctx)
+    sts = success_structures(ctx) + titrated_structures(ctx) + layout_structures(ctx)
     nsucc = 0
     for st in sts:
         for ff in FFS:
@@ -1870,7 +1937,9 @@ def exec_case(ctx, runner, smap, case):
     kind = case.get("kind")
     if kind == "success":
         st = {"tag": case["tag"], "pdb": case["files"]["in.pdb"], "classes": case.get("classes", []), "opts": [a for a in case["argv"][1:-2]],
-              "n_res": case.get("n_res", 0), "cells": [], "propka_rows": case.get("propka_rows"), "titrated": case.get("titrated", False)}
+              "n_res": case.get("n_res", 0), "cells": [], "propka_rows": case.get("propka_rows"), "titrated": case.get("titrated", False),
+              "polymer": case.get("polymer"), "layout": case.get("layout"),
+              "extra_files": {k: v for k, v in case["files"].items() if k != "in.pdb"}}
         _, obs, bad = run_success(ctx, runner, smap, st, case["ff"], {})
         return bad, obs
     if kind == "history" and case.get("family") not in (None, "reference"):
